@@ -171,13 +171,15 @@ fn history(idx: u64, len: usize, use_call: bool, rec: &mut Rec) {
 fn random_history(rng: &mut Rng, rec: &mut Rec) {
     let use_call = rng.chance(1, 2);
     let explicit = rng.chance(1, 3);
-    let mut s = match body_sender(None, explicit, use_call) {
+    let variant = rng.below(4) as u8;
+    let mut s = match crate::drive::body_sender_ex(None, explicit && variant & 2 == 0, use_call, variant) {
         Ok(s) => s,
         Err(e) => {
             rec.fail("C03/setup", e);
             return;
         }
     };
+    rec.cov(&format!("sender/{}{}", s.api(), if variant & 2 != 0 && !use_call { "/despite-method" } else { "" }));
     let src: Vec<u8> = crate::wire::payload(120_000, rng.below(200) as u8);
     let mut m = Model { terminated: false, consumed: 0, data_sum: 0, in_sum: 0, terminators: 0 };
     let mut pos = 0usize;
